@@ -16,67 +16,66 @@ def add(pid, technique, text, note, ref=None, category="exploration"):
                        category=category)
 
 
-add("C04", "runtime monitor: real StateManager.compute_logw_and_logz vs independent long-double reference model on generated and recorded histories, metamorphic relations, FP-exception trap",
-    "Held on every generated history (3e3 quick / 1e5 thorough) and on every prefix of histories recorded from real runs; an oracle decides each case, so any deviation of the formula, normalisation, order-dependence, shift-equivariance or finiteness on an explored history is reported with the history as witness. Exploration, not proof: histories outside the generator families are not covered.",
-    "Trusted: numpy long double arithmetic of the reference; tolerance 1e-9*(1+scale).")
-add("C16", "runtime monitor: real apply_boundary_conditions/check_bounds vs exact rational (Fraction) fold on hostile and random doubles, FP-exception trap",
-    "Each folded value is compared with the exact rational fold of the input double (error <= 2^-53), with idempotence, untouched-coordinate bit-identity, 1-D/2-D agreement and check_bounds equivalence; ~2e5 values quick, ~5e6 thorough plus hypothesis floats(). Exploration over a finite sample of the doubles, biased to the places where folds break (integers+-ulp, 2^63, huge magnitudes).",
-    "Trusted: python fractions; the catalogue/generators decide reach.")
-
-add("C06", "runtime monitor with injected randomness: systematic comb driven at every breakpoint +-1ulp / cell midpoint of its u0-partition via an np.random interposer, validated by an independent comb model; pooled multinomial counts",
-    "For each generated (n,w) the whole u0 interval is covered through its finite partition (every breakpoint +-1 ulp, every midpoint, 0, 1-ulp), so length/range/monotonicity/floor-ceil copies/zero-weight clauses are decided for every offset of that (n,w) and unbiasedness by exact integration over cells; (n,w) themselves are sampled (400 quick / 1e4 thorough). Multinomial clause statistical (two-stage z>5.5).",
-    "Trusted: long-double cumulative sums of the reference comb; np.random.choice semantics for the multinomial scheme.")
-add("C15", "runtime contract monitors on GaussianMixture / HierarchicalGaussianMixture over generated weighted data sets; metamorphic weight-replication pairs with fixed EM step count",
-    "Algebraic invariants (weights, PSD, bounding box, label ranges, cap, min_points, predict ranges) asserted on every fit of 300 (quick) / 5000 (thorough) generated data sets; replication equivalence on a third of them. Exploration over generator families.",
-    "Trusted: numpy eigvalsh; mean-in-box judged for component weight > 1e-3.")
-add("C17", "history + executable reference model: random StateManager operation sequences vs dict-of-copies model with a hostile caller overwriting every returned array; sampler-level twin runs compared bitwise",
-    "After every operation the manager's public answers are compared with the reference model while every array handed to the caller is overwritten; 300 (quick) / 5000 (thorough) sequences of 40 operations plus hostile-vs-untouched twin sampler runs. Any aliasing that can influence a later answer, or a commit that alters history, diverges from the model.",
-    "Trusted: reference model (30 lines); donated inputs (copy=False, from_dict) are not judged.")
-add("C19", "runtime contract monitors on fit_mvstud / ModeStatistics: well-posedness, metamorphic equivariance pairs, recovery on large multivariate-t samples",
-    "Well-posedness and three equivariance pairs on 300 (quick) / 5000 (thorough) data sets, dof-finiteness at the kernel boundary, recovery on 18-72 large t samples. The recovery clause is a KNOWN FINDING (nu is always inf).",
-    "Trusted: rtol 1e-4 equivariance band; recovery bands nu +-25%, scale +-10%.")
-add("C20", "runtime contract monitors on effective_sample_size / compute_ess / trim_weights / volume_variation with long-double references and conditioning-aware affine pairs",
-    "ESS bounds/scale/uniform, exact threshold-set trimming contract and volume-metric invariances asserted on 3000 (quick) / 1e5 (thorough) generated weight vectors (600-decade range, zeros, ties).",
-    "Trusted: long-double ESS; affine clause judged only when 1000*eps*kappa <= 1e-2.")
-add("C07", "invariant at hooks: after Resampler.run / Mutator.run / every commit / sample() / posterior(), every particle row is looked up in the instrumented likelihood's evaluation log (unique ids in blobs) and x re-derived from u",
-    "Every particle row at every step boundary of 21 (quick) / ~150 (thorough) monitored runs over a covering array of the option lattice (3e4-1e6 rows) is identified with the evaluation it came from; a split record (field moved alone) cannot match the log.",
-    "Trusted: purity of the harness' prior transform and likelihood; x bytes / blob ids as record identity.")
-add("C08", "fault enumeration: kill points before every I/O call of a checkpoint save and at byte offsets inside writes (in-process engine; strace syscall injection in thorough); digests of restored state vs digest hooked at save time; resumed runs monitored",
-    "Every checkpoint of save_every=1 runs in 6/16 configurations is restored and compared bitwise; resumes checked for prefix identity, numbering, call counting, schedule and postconditions; every I/O call boundary of a save (open/write/flush/fsync/close/replace) plus byte offsets is a crash point in first-save and overwrite scenarios.",
-    "Trusted: process death only (no power-loss semantics); sha256 digests.", category="fault_enumeration")
-add("C09", "runtime monitor: bitwise digests of paired seeded runs; global RNG state hashes at the exit of every library operation under three ambient seeds; reseed log from the np.random interposer",
-    "Reproducibility decided bitwise on 8/160 construct+run pairs; the reset clause decided deterministically per operation (state equality across ambient seeds is the witness) over 40-150 operation instances covering mixture fits, mode statistics, every pipeline step and the public sampler calls.",
-    "Trusted: all tempest randomness flows through numpy's legacy global stream (tap counters show it).")
-add("C11", "runtime monitor: instrumented likelihood counts finite/-inf evaluations per warm-up batch, hull oracle on every recorded beta=0 evidence; stored -inf checked at step hooks; final evidence by two-stage replicate rule",
-    "Hull test is exact per warm-up iteration on 50/300 traced runs (f in 0.15..1, 2-6 warm-up iterations); final evidence judged on R=32/96 replicates per cell.",
-    "Trusted: closed-form evidence of the truncated Gaussian target; Rule S thresholds (DESIGN 2.6).")
-add("C12", "runtime monitor: run() postconditions against the reference MIS model; all 16 posterior() option combinations x trimming parameters with row identity through the evaluation log",
-    "Postconditions and the full posterior() contract (lengths, normalisation, uniformity, row alignment of x/logL/blob/logw/weights) decided on every completed run of a covering array (8 quick / ~100 thorough) x 16 combos x 3-6 trimming settings.",
-    "Trusted: long-double MIS reference; log-weights compared up to one additive constant per call.")
-add("C13", "runtime monitor over evaluation schedules: same seed under vectorised / scalar / reversed / permuted / delayed ThreadPool / integer pools, sha256 of histories, cross-process evaluation counter",
-    "Transparency decided bitwise across 5-7 schedules x 4-6 configurations x 2-8 seeds (out-of-order completions are counted to show the schedules really differed); calls compared with a counter shared across threads and processes.",
-    "Trusted: the harness likelihood is pointwise identical in all modes (vectorised mode evaluates row by row).")
-add("C14", "invariant at the kernel boundary (hook on parallel_mcmc): assignment < K, mode finite/SPD/positive dof, mode location inside the bounding box of the training particles carrying that label; synthetic dying-mode pools through the real Trainer/Resampler, monitored runs, resume points",
-    "300/5000 synthetic pool sequences (4-8 consecutive iterations, cluster_every 1-5, caps, sudden mode death) and 24/300 monitored runs incl. resume; iterations with a label gap are counted so that the evidence shows the hostile case was reached.",
-    "Trusted: a Student-t fit's location lies in its data's bounding box (C19); labels with <= n_dim distinct training points are not judged.")
-add("C18", "runtime monitor over covering arrays of the constructor option lattice, each row in its own process under an iteration budget, postconditions against the reference model; one-factor invalid values with call counters on the instrumented user callables",
-    "Pairwise (38 rows) / 3-wise (~600 rows) coverage of 16 options incl. default n_particles, integer pools, save_every, boundary kinds; 34 invalid values x context variants must be rejected before any user callable is invoked.",
-    "Trusted: greedy covering-array generator (coverage of t-tuples is computed, infeasible tuples dropped).")
 add("C01", "replicate ensembles of real Sampler.run() in separate processes vs closed-form posterior functionals; fixed two-stage decision rule (flag |b| > 4.5 se + 4 s/N, confirm on 2R fresh seeds); mechanism classifier for known findings",
-    "Sampling-distribution claim decided on R=32 (quick) / 64 (thorough) independent runs per cell over 16-96 cells x ~10 estimands x 3 estimators (untrimmed / trimmed / resampled from the same runs); resolves biases of ~3% of a posterior sd at N=128; thorough judges the largest N.",
-    "Trusted: closed-form targets; Rule S thresholds fixed in DESIGN 2.6; false-alarm probability per cell <= (7e-6)^2.")
+    "Sampling-distribution claim decided on R=32 (quick) / 64 (thorough) independent runs per cell over 25 / 120 cells (targets: interior correlated, bimodal, hard face, periodic, reflective, d=4, 1000x-narrow posterior, volume-variation schedule) x ~10 estimands x 3 estimators from the same runs; resolves biases of ~3% of a posterior sd at N=128; thorough judges the largest N.",
+    "Trusted: closed-form targets; Rule S thresholds fixed in DESIGN 2.6; false-alarm probability per cell <= (7e-6)^2. Known findings printed, not failed: tpcn+periodic, tpcn+reflective, rwm+reflective+correlated, trimmed-estimator, clustering-state-dependent-kernel.")
 add("C02", "replicate ensembles vs closed-form evidence (two-stage rule) + deterministic RNG-state-hash monitor at every pipeline step boundary of every run (shared or repeated state = shared innovations) + batch-means F test",
-    "Evidence bias judged on R=48/96 runs per cell (se ~0.013 nat at N=128); independence decided deterministically: 1e4-1e5 RNG states hashed at step boundaries, any state shared by two seeds or recurring within a run is a witness.",
-    "Trusted: numpy global stream is the only randomness source; closed-form logZ.")
-add("C03", "injected randomness: RNG interposer serves chosen gamma/normal/uniform draws to the real TPCNRunner/RWMRunner, outcome compared with the tpCN/RWM specification (exact fold, scipy multivariate_t ratio, accept probes at alpha(1+-1e-9)); distributional invariance on exact pi_beta draws (paired z, confirm on fresh batch)",
-    "2000/20000 conformance cases decide proposal map, gamma parameters, acceptance factor, accept rule, out-of-cube rejection and one-draw-per-proposal exactly; 22/150 invariance cells x 2e4/1e5 walkers decide pi_beta-invariance per kernel x boundary kind x covariance structure at z>5 twice.",
-    "Trusted: scipy.stats.multivariate_t/truncnorm/vonmises; invariance shown for the exactly samplable families only.")
-add("C05", "invariant at a hook on the real Reweighter.run: pool snapshot -> long-double reference ESS / logZ / weights at the recorded beta; ESS limit read at the hooked _find_beta_upper_limit and validated independently",
-    "2000/50000 synthetic pools and every reweighting step of 24/400 monitored runs judged: monotone, bounded, ESS floor (rel 1e-9), volume mode within the ESS limit, recorded beta/logZ/ESS/weights self-consistent.",
-    "Trusted: long-double reference; the ESS limit reported by the code is validated, not recomputed as a global supremum.")
+    "Evidence bias judged on R=48/96 runs per cell (se ~0.013 nat at N=128) over 14 / 90 cells; independence decided deterministically: 1e4-1e5 RNG states hashed at step boundaries, any state shared by two seeds or recurring within a run is a witness.",
+    "Trusted: numpy global stream is the only randomness source (private generators are caught by C09/C13 instead); closed-form logZ.")
+add("C03", "injected randomness: RNG interposer serves chosen gamma/normal/uniform draws to three consecutive sweeps of the real TPCNRunner/RWMRunner object, outcome compared with the tpCN/RWM specification (exact fold, scipy multivariate_t ratio, accept probes at alpha(1+-1e-9), one draw per proposal, out-of-cube rejection); distributional invariance on exact pi_beta draws (paired z, confirm on fresh batch); pipeline cells with the library's own clusterer",
+    "2000/20000 cases x 3 sweeps decide proposal map, gamma parameters, acceptance factor, accept rule and state carried between sweeps exactly; 22/200 invariance cells x 2e4/1e5 walkers decide pi_beta-invariance per kernel x boundary kind x covariance structure at z>5 twice.",
+    "Trusted: scipy.stats.multivariate_t/truncnorm/vonmises; invariance shown for the exactly samplable families only. Known findings: tpcn+periodic, tpcn+reflective, rwm+reflective+correlated, state-dependent-assignment.")
+add("C04", "runtime monitor: real StateManager.compute_logw_and_logz vs independent long-double reference model on generated and recorded histories (incl. 30-70 iterations, 2e4-sample batches, one history above 2^24 mixture elements), repeated requests on one manager, metamorphic relations, FP-exception trap",
+    "Held on every generated history (3e3 quick / 1e5 thorough) and on every prefix of histories recorded from real runs; an oracle decides each case, so any deviation of the formula, normalisation, order-dependence, shift-equivariance, request-order dependence or finiteness on an explored history is reported with the history as witness.",
+    "Trusted: numpy long double arithmetic of the reference; tolerance 1e-9*(1+scale).")
+add("C05", "invariant at a hook on the real Reweighter.run: pool snapshot -> long-double reference ESS / logZ / weights at the recorded beta; ESS limit read at the hooked _find_beta_upper_limit and validated independently; single-step pools, multi-iteration sequences through one Reweighter instance, monitored real runs",
+    "2000/50000 synthetic pools, 600/20000 growing-history sequences (directed: a narrow spike found after the pool was admissible up to beta=1) and every reweighting step of 24/400 monitored runs: monotone, bounded, ESS floor (rel 1e-9), volume mode within the ESS limit, recorded beta/logZ/ESS/weights self-consistent.",
+    "Trusted: long-double reference; the ESS limit reported by the code is validated (its reference ESS >= target), not recomputed as a global supremum.")
+add("C06", "runtime monitor with injected randomness: systematic comb driven at every breakpoint +-1ulp / cell midpoint of its u0-partition via an np.random interposer, validated by an independent comb model; pooled multinomial counts; Resampler.run and posterior(resample=True) (with and without trimming)",
+    "For each generated (n,w) the whole u0 interval is covered through its finite partition, so length/range/monotonicity/floor-ceil copies/zero-weight clauses are decided for every offset of that (n,w) and unbiasedness by exact integration over cells; (n,w) are sampled (400 quick / 1e4 thorough, incl. vectors of 3e3-1.2e4 weights). Multinomial clause statistical (two-stage z>5.5).",
+    "Trusted: long-double cumulative sums of the reference comb; np.random.choice semantics for the multinomial scheme.")
+add("C07", "invariant at hooks: after Resampler.run / Mutator.run / every commit / sample() / posterior(), every particle row is looked up in the instrumented likelihood's evaluation log (unique ids in one- and two-field blobs) and x re-derived from u",
+    "Every particle row at every step boundary of 36 (quick) / ~370 (thorough) monitored runs over a covering array of the option lattice plus dedicated sparse-support x blobs runs (3e4-1e6 rows) is identified with the evaluation it came from; a split record cannot match the log.",
+    "Trusted: purity of the harness' prior transform and likelihood; x bytes / blob ids as record identity. Known finding: all-zero-likelihood-batch.")
+add("C08", "fault enumeration: kill points before every I/O call of a checkpoint save and at byte offsets inside OS-level writes, with a real BufferedWriter over the killing raw layer and the buffer size as part of the schedule (in-process engine; strace syscall injection in thorough); digests of restored state vs digest hooked at save time; resumed runs monitored (same / larger target, final checkpoint, second generation)",
+    "Every checkpoint of save_every=1 runs in 7/32 configurations is restored and compared bitwise; resumes checked for prefix identity, numbering, cross-process call counting, schedule and postconditions; every I/O call boundary of a save plus byte offsets is a crash point in first-save and overwrite scenarios under 2-3 buffer sizes.",
+    "Trusted: process death only (no power-loss semantics); sha256 digests.", category="fault_enumeration")
+add("C09", "runtime monitor: bitwise digests of paired seeded runs and of seeded resume pairs; global RNG state hashes at the exit of every library operation under three ambient seeds, on samplers built without and with random_state; reseed log from the np.random interposer",
+    "Reproducibility decided bitwise on 11/160 construct+run pairs and 4/24 resume pairs; the reset clause decided deterministically per operation (state equality across ambient seeds is the witness) over 58-190 operation instances covering mixture fits, mode statistics, every pipeline step and the public sampler calls.",
+    "Trusted: seeding with the user's random_state at construction / checkpoint load is the documented mechanism, any later reset is not.")
 add("C10", "metamorphic pairs: same seeded real run with logL and logL+c; discrete structure exact, continuous quantities to rounding, recorded logZ_t shifted by beta_t*c; mismatch must reproduce on 2 of 3 further seeds",
-    "12 (quick) / 768 (thorough) pairs over kernel x resampler x clustering x evaluation mode x metric mode x 4-8 shifts in [-1e3,1e3].",
-    "Trusted: tolerance 1e-9 on particles (RWM adaptation rounding), 1e-6 relative on weights/ESS.")
+    "26 (quick) / 800 (thorough) pairs over kernel x resampler x clustering x evaluation mode x metric mode x shifts in [-1e3,1e3] incl. irrational ones, shifts across logL=0 and below -700, and histories above 4096 samples.",
+    "Trusted: tolerance 1e-9 on particles (RWM adaptation rounding), 1e-8 relative on weights/ESS, 1e-9(1+|c|) on the logZ shift.")
+add("C11", "runtime monitor: instrumented likelihood counts finite/-inf evaluations per warm-up batch, hull oracle on every recorded beta=0 evidence; stored -inf checked at step hooks; directed warm-up batches served by the RNG interposer (chosen rows in the zero-likelihood region); final evidence by two-stage replicate rule",
+    "Hull test is exact per warm-up iteration on 74/400 traced runs (f in 0.15..1, 2-6 warm-up iterations, directed patterns row0/last/rows01/one-random/all-but-one); final evidence judged on R=32/96 replicates per cell.",
+    "Trusted: closed-form evidence of the truncated Gaussian target; Rule S thresholds. Known finding: all-zero-likelihood-batch.")
+add("C12", "runtime monitor: run() postconditions against the reference MIS model; all 16 posterior() option combinations x trimming parameters with row identity through the evaluation log; finished runs re-opened from their final checkpoint",
+    "Postconditions and the full posterior() contract (lengths, normalisation, uniformity, row alignment of x/logL/blob/logw/weights) decided on every completed run of a covering array (8 quick / ~260 thorough) x 16 combos x 5-9 trimming settings.",
+    "Trusted: long-double MIS reference; log-weights compared up to one additive constant per call.")
+add("C13", "runtime monitor over evaluation schedules: same seed under vectorised / scalar / reversed / permuted / delayed ThreadPool / full multiprocessing-Pool API with truly unordered variants / futures-style executor / integer pools, sha256 of histories, cross-process evaluation counter",
+    "Transparency decided bitwise across 7-9 schedules x 4-6 configurations x 2-8 seeds (out-of-order completions are counted to show the schedules really differed); calls compared with a counter shared across threads and processes.",
+    "Trusted: the harness likelihood is pointwise identical in all modes (vectorised mode evaluates row by row).")
+add("C14", "invariant at the kernel boundary (hook on parallel_mcmc) and for every pool particle resampling can select: label < K, mode finite/SPD/positive dof, mode location inside the bounding box of the training particles carrying that label; noise-free probe sweep (RNG interposer) identifies the mode the kernel actually uses; synthetic dying-mode pools with directed victim labels through the real Trainer/Resampler, monitored runs, resume points",
+    "300/5000 synthetic pool sequences (4-8 consecutive iterations, cluster_every 1-5, caps, sudden mode death, each label in turn losing all trimmed training points between refits) and 24/300 monitored runs incl. resume; gap iterations, directed iterations and probed walkers are counted so the evidence shows the hostile cases were reached.",
+    "Trusted: a Student-t fit's location lies in its data's bounding box (C19); labels with <= n_dim distinct training points are not judged.")
+add("C15", "runtime contract monitors on GaussianMixture / HierarchicalGaussianMixture over generated weighted data sets; metamorphic weight-replication pairs with fixed EM step count",
+    "Algebraic invariants (weights, PSD, bounding box, label ranges, cap, min_points, predict ranges, centres/covariances of the hierarchical model for 'full') asserted on every fit of 300 (quick) / 5000 (thorough) generated data sets; replication equivalence on a third of them.",
+    "Trusted: numpy eigvalsh; mean-in-box judged for component weight > 1e-3.")
+add("C16", "runtime monitor: real apply_boundary_conditions/check_bounds vs exact rational (Fraction) fold on hostile and random doubles, memory layouts and index-list forms, FP-exception trap",
+    "Each folded value is compared with the exact rational fold of the input double (error <= 2^-53), with idempotence, untouched-coordinate bit-identity, 1-D/2-D/Fortran/strided agreement and check_bounds equivalence; ~2e5 values quick, ~5e6 thorough plus hypothesis floats() and the repo's own suite under a contract monitor.",
+    "Trusted: python fractions; the catalogue/generators decide reach.")
+add("C17", "history + executable reference model: random StateManager operation sequences vs dict-of-copies model with a hostile caller overwriting every returned array (incl. 0-d arrays); sampler-level twin runs compared bitwise; append-only monitor on real runs",
+    "After every operation the manager's public answers are compared with the reference model while every array handed to the caller is overwritten; 300 (quick) / 5000 (thorough) sequences of 40 operations plus hostile-vs-untouched twin sampler runs (incl. a zero-likelihood target) in which every committed batch is re-digested after every later iteration.",
+    "Trusted: reference model (30 lines); donated inputs (copy=False, from_dict) are not judged.")
+add("C18", "runtime monitor over 3-wise covering arrays of the constructor option lattice, each row in its own process under an iteration budget, postconditions against the reference model; one-factor invalid values with call counters on the instrumented user callables",
+    "3-wise coverage (measured: 99.7% of feasible triples, 190 rows; thorough four arrays) of 16 options incl. default n_particles, integer pools, save_every, boundary kinds; 34 invalid values x context variants must be rejected before any user callable is invoked.",
+    "Trusted: greedy covering-array generator (coverage of t-tuples is measured, infeasible tuples dropped).")
+add("C19", "runtime contract monitors on fit_mvstud / ModeStatistics (incl. the n_modes path with empty and singleton labels): well-posedness, metamorphic equivariance pairs, factor consistency, recovery on large multivariate-t samples",
+    "Well-posedness and four equivariance pairs (scaling 1e-6..1e6, translation, translation by 1e7 sd, permutation) on 300 (quick) / 5000 (thorough) data sets, dof/location/SPD/Cholesky-inverse consistency at the kernel boundary, recovery on 18-72 large t samples.",
+    "Trusted: rtol 1e-4 equivariance band; recovery bands nu +-25%, scale +-10%. Known finding: nu-estimate-infinite.")
+add("C20", "runtime contract monitors on effective_sample_size / compute_ess / trim_weights / volume_variation with long-double references, extreme magnitudes, near-one weight sums, repeated calls and conditioning-aware affine pairs",
+    "ESS bounds/scale/uniform, exact threshold-set trimming contract and volume-metric invariances asserted on 3000 (quick) / 1e5 (thorough) generated weight vectors (600-decade range, zeros, ties, raw weights whose squares under/overflow).",
+    "Trusted: long-double ESS; affine clause judged only when 1000*eps*kappa <= 1e-2.")
 
 NOT_YET = {}
 
